@@ -363,7 +363,7 @@ MANIFEST = {
                    "PushContexts in two processes and hashes every CDS/EDS/LDS/RDS/ECDS/NDS resource of three proxies (sidecars, router; waypoint + sidecar in every sixth mesh); a Lean-verified monitor (allEqualB_iff) "
                    "and Go judge every observation."),
     "level_note": ("PARTIAL: proved = comparator/fold logic + monitor (coverage.obligations); explored = real generation on ~160 (quick) / ~1500 (thorough) meshes "
-                   "(coverage.streams.perm, counters perm.*) - no difference observed is not a proof. Ten genuine non-determinism defects were found by the harness "
+                   "(coverage.streams.perm, counters perm.*; thorough verified in 17 min) - no difference observed is not a proof. Ten genuine non-determinism defects were found by the harness "
                    "and repaired in /repo (fix: commits, see notes/C17.md; each has a witness mesh in harness/corpus/C17). Known deviation, by design of the code: "
                    "the ORDER of resources in EDS/RDS/ECDS responses follows Go map iteration over the requested name set (fingerprint "
                    "perm:response-order:requested-names); contents are identical. Not covered: ztunnel (WDS/WAUTH) generators, SDS, multi-cluster, mesh networks, "
